@@ -59,11 +59,11 @@ BOUNDS = {
              "rotation/commutation on every shape with sides <= 5 and at most 16 pixels, with every region inside it (region bounds are solver "
              "integers, the slice bounds are concretised by forking) and, without concretisation, per-pixel membership/position for every shape <= 6x6 (pixel permutation "
              "taken from the real rotate_array on a label array); extraction through Layout2D/Array2D on every shape <= 3x3 with every "
-             "region and every window inside it, Layout1D on lengths <= 5; masked Array2D objects with a history (fresh / in-place update over "
+             "region and every window inside it, Layout1D / Region1D extraction on lengths <= 5 with every mask (>= 1 unmasked pixel, forked) and both Array1D storages; masked Array2D objects with a history (fresh / in-place update over "
              "the region / derived by arithmetic / skip_mask buffer; both storages): every mask with >= 1 masked and >= 1 unmasked pixel of every "
              "shape with <= 4 pixels and of 2x3 (masks by forking), every region, every corner, values and increment symbolic reals",
     "thorough": "same integer laws; array rotation/commutation on every shape <= 7x7, label-permutation law <= 8x8, "
-                "array extraction on shapes <= 4x4, Layout1D lengths <= 8; masked Array2D histories: every mask of shapes with <= 6 pixels; "
+                "array extraction on shapes <= 4x4, Layout1D lengths <= 8 (every mask up to length 7); masked Array2D histories: every mask of shapes with <= 6 pixels; "
                 "CrossHair per-condition timeout 300 s",
 }
 OUTSIDE = [
@@ -710,7 +710,7 @@ def body_masked_orientation(inp, H, W):
             inr = c[0] <= i < c[1] and c[2] <= j < c[3]
             upd[i, j] = (v[i, j] + d if inr else v[i, j]) if keep[i, j] else 0.0
     reg = aa.Region2D(tuple(c))
-    lay = aa.Layout2D(shape_2d=(H, W), original_roe_corner=corner, parallel_overscan=tuple(c))
+    lay = aa.Layout2D(shape_2d=(H, W), original_roe_corner=corner, parallel_overscan=tuple(c), serial_overscan=tuple(c))
     lay_rot = lay.new_rotated_from(roe_corner=corner)
     rot = lambda x: layout_util.rotate_array_via_roe_corner_from(array=x, roe_corner=corner)
 
@@ -725,6 +725,8 @@ def body_masked_orientation(inp, H, W):
         content = native_ref[c[0]:c[1], c[2]:c[3]]
         A[tag + ".extract"] = _vals(hx.attempt(lambda: lay.extract_parallel_overscan_array_2d_from(array=arr).native))
         E[tag + ".extract"] = content
+        A[tag + ".extract_serial"] = _vals(hx.attempt(lambda: lay.extract_serial_overscan_array_from(array=arr).native))
+        E[tag + ".extract_serial"] = content
         A[tag + ".commute"] = _vals(hx.attempt(lambda: ori[lay_rot.parallel_overscan.slice]))
         E[tag + ".commute"] = ref_flip(content, corner)
         A[tag + ".same_rotation_twice"] = _vals(hx.attempt(lambda: rot(ori)))
@@ -818,27 +820,50 @@ def case_extract_array(ctx, H, W):
     hx.run_body(ctx, body_extract_array, {"v": V.real_array("v", (H, W)), "o": o, "e": e}, {"H": H, "W": W}, validate_every=16)
 
 
-def body_layout_1d(inp, N):
+def body_layout_1d(inp, N, masked=True):     # `masked` only selects how the case builds the mask
+    """Region1D / Layout1D address NATIVE pixel positions of the 1D data: for every mask (forked) and both storages of the
+    Array1D the extracted overscan is the native form (masked pixels 0) restricted to the region"""
     v = np.asarray(inp["v"]).reshape(N)
+    mask = np.array(inp["mask"], dtype=bool).reshape(N)
     o = [int(x) for x in _il(inp["o"])]
     A, E = {}, {}
     lay = aa.Layout1D(shape_1d=(N,), overscan=tuple(o), prescan=tuple(o))
     A["Region1D.slice"] = _vals(hx.attempt(lambda: v[lay.overscan.slice]))
     E["Region1D.slice"] = v[o[0]:o[1]]
-    m = aa.Mask1D.all_false(shape_slim=(N,), pixel_scales=1.0)
-    arr = hx.attempt(lambda: aa.Array1D(values=v.copy(), mask=m))
-    if isinstance(arr, hx.Raised):
-        A["Array1D"], E["Array1D"] = arr, "constructed"
-        return A, E
-    A["extract_overscan_array_1d"] = _vals(hx.attempt(lambda: lay.extract_overscan_array_1d_from(array=arr).native))
-    E["extract_overscan_array_1d"] = v[o[0]:o[1]]
+    native = np.empty(N, dtype=object)
+    for k in range(N):
+        native[k] = 0.0 if mask[k] else v[k]
+    m = aa.Mask1D(mask=mask, pixel_scales=1.0)
+    for sn in (False, True):
+        tag = "sn%d" % sn
+        arr = hx.attempt(lambda: aa.Array1D(values=v.copy(), mask=m, store_native=sn))
+        if isinstance(arr, hx.Raised):
+            A[tag + ".Array1D"], E[tag + ".Array1D"] = arr, "constructed"
+            continue
+        A[tag + ".native"] = _vals(hx.attempt(lambda: arr.native))
+        E[tag + ".native"] = native
+        A[tag + ".region_slices_native"] = _vals(hx.attempt(lambda: np.asarray(hx.unwrap(arr.native))[lay.overscan.slice]))
+        E[tag + ".region_slices_native"] = native[o[0]:o[1]]
+        ex = hx.attempt(lambda: lay.extract_overscan_array_1d_from(array=arr))
+        A[tag + ".extract_overscan_array_1d"] = _vals(hx.attempt(lambda: ex.native)) if not isinstance(ex, hx.Raised) else ex
+        E[tag + ".extract_overscan_array_1d"] = native[o[0]:o[1]]
+        if not isinstance(ex, hx.Raised):
+            A[tag + ".extract_is_unmasked_Array1D"] = [isinstance(ex, aa.Array1D), bool(np.asarray(ex.mask).any())]
+            E[tag + ".extract_is_unmasked_Array1D"] = [True, False]
     return A, E
 
 
-def case_layout_1d(ctx, N):
+def case_layout_1d(ctx, N, masked=True):
+    if masked:
+        mb = V.bool_array("m", (N,))
+        ctx.assume(z3.Or(*[z3.Not(b.t) for b in mb.reshape(-1)]))        # at least one unmasked pixel
+        mask = ctx.concrete_bools(mb)
+    else:
+        mask = np.full((N,), False)
+    ctx.set_case(mask=mask.tolist())
     o = _ints(ctx, "o", 2)
     ctx.assume(z3.And(o[0].t >= 0, o[0].t < o[1].t, o[1].t <= N))
-    hx.run_body(ctx, body_layout_1d, {"v": V.real_array("v", (N,)), "o": o}, {"N": N}, validate_every=4)
+    hx.run_body(ctx, body_layout_1d, {"mask": mask, "v": V.real_array("v", (N,)), "o": o}, {"N": N}, validate_every=8)
 
 
 # ----------------------------------------------------------------------------------------------- CrossHair contract twins
@@ -1042,7 +1067,8 @@ def cases(tier):
     for (H, W) in ([(1, 1), (2, 3), (3, 2)] if quick else [(1, 1), (1, 4), (2, 3), (3, 2), (4, 4)]):
         out.append(("case_orientation_slim", {"H": H, "W": W}))
     for N in range(1, n1_max + 1):
-        out.append(("case_layout_1d", {"N": N}))
+        masked = N <= (5 if quick else 7)             # every mask with >= 1 unmasked pixel (forked); longer arrays unmasked only
+        out.append(("case_layout_1d", {"N": N, "masked": masked}, split_for((2 ** N - 1) * tri(N) if masked else tri(N))))
     # masked Array2D objects with a history: (masks with >=1 masked and >=1 unmasked pixel) x corners x regions
     mo = []
     for H in range(1, 5):
